@@ -5,7 +5,7 @@ import json
 from props import functional_props
 
 FUNCTIONAL = set(functional_props.PLAN)
-OTHERS = {"C04", "C01", "C02", "C20", "C05", "C16", "C17", "C15"}
+OTHERS = {"C04", "C01", "C02", "C20", "C05", "C16", "C17", "C15", "C06", "C19", "C07", "C18"}
 ALL = FUNCTIONAL | OTHERS
 
 
@@ -36,14 +36,53 @@ def run(prop, out, drv):
     if prop == "C15":
         from props import c15
         return c15.run(out, drv)
+    if prop == "C06":
+        from props import c06
+        return c06.run(out, drv)
+    if prop == "C19":
+        from props import c19
+        return c19.run(out, drv)
+    if prop == "C07":
+        from props import c07
+        return c07.run(out, drv)
+    if prop == "C18":
+        from props import c18
+        return c18.run(out, drv)
     raise SystemExit(f"unknown property {prop}")
 
 
-def replay(prop, path, drv):
-    import functional as fx
-    import sut
+def _unjson(x):
+    """Fractions were written as 'n/d' or 'n' strings by engine.jsonable."""
+    import re
     from fractions import Fraction as F
 
+    if isinstance(x, str) and re.fullmatch(r"-?\d+(/\d+)?", x):
+        return F(x)
+    if isinstance(x, list):
+        return [_unjson(v) for v in x]
+    if isinstance(x, dict):
+        return {k: (v if k in ("fn", "method", "check_type", "period", "tkind") else _unjson(v)) for k, v in x.items()}
+    return x
+
+
+def replay(prop, path, drv):
+    """Re-run a stored violation against the current tree."""
+    import functional as fx
+
     data = json.load(open(path))
-    print(json.dumps(data, indent=1)[:4000])
+    print(f"replay of {path}: {data.get('what', data.get('no_longer_checks', ''))[:400]}")
+    case = data.get("case")
+    if isinstance(case, dict) and "fn" in case and "carriers" in data:
+        c = _unjson(case)
+        c["fn"] = case["fn"]
+        (obs, ans), = fx.evaluate(drv, [(c, *data["carriers"])], want_spec=True)
+        print("observed now :", obs)
+        print("model        :", ans.get("model"))
+        print("spec         :", ans.get("spec"))
+        print("verdicts     :", {k: ans[k] for k in ("in_dom", "spec_ok", "c01_ok", "c02_ok", "model_eq") if k in ans})
+        bad = ans["in_dom"] and not (ans["spec_ok"] and ans["c02_ok"] and (ans["c01_ok"] or not ans["valid_params"]))
+        print("still failing" if bad else "no longer failing")
+        return 1 if bad else 0
+    print(json.dumps(data, indent=1)[:6000])
+    print("(structured replay is available for single-call cases; for this case re-run the check with the recorded seed)")
     return 0
